@@ -70,7 +70,7 @@ def split_top(s, sep=','):
 
 # ---------------------------------------------------------------- structs.ipp
 
-def parse_tables():
+def parse_tables(lenient=False):
     src = read(INC + 'params/structs.ipp')
     src = re.sub(r'^\s*#.*$', '', src, flags=re.M)          # drop #if ALPAQA_WITH_OCP / #endif
     params, aliases, enums = [], [], []
@@ -94,12 +94,16 @@ def parse_tables():
                 continue
             if m.group(1) == 'PARAMS_TABLE':
                 mm = re.fullmatch(r'PARAMS_MEMBER\s*\(\s*(' + IDENT + r')\s*,\s*""\s*\)', a, flags=re.S)
+                if not mm and lenient:
+                    continue
                 if not mm:
                     raise TErr(f'structs.ipp: PARAMS_TABLE({ty}) has an entry that is not '
                                f'PARAMS_MEMBER(name, ""): {a[:120]!r}')
                 ents.append((mm.group(1), mm.group(1)))
             elif m.group(1) == 'ENUM_TABLE':
                 mm = re.fullmatch(r'ENUM_MEMBER\s*\(\s*(' + IDENT + r')\s*\)', a, flags=re.S)
+                if not mm and lenient:
+                    continue
                 if not mm:
                     raise TErr(f'structs.ipp: ENUM_TABLE({ty}) has an entry that is not '
                                f'ENUM_MEMBER(name): {a[:120]!r}')
@@ -107,6 +111,8 @@ def parse_tables():
             else:
                 mm = re.fullmatch(r'PARAMS_MEMBER_ALIAS\s*\(\s*(' + IDENT + r')\s*,\s*(' + IDENT + r')\s*\)',
                                   a, flags=re.S)
+                if not mm and lenient:
+                    continue
                 if not mm:
                     raise TErr(f'structs.ipp: PARAMS_ALIAS_TABLE({ty}) entry not understood: {a[:120]!r}')
                 ents.append((mm.group(1), mm.group(2)))
@@ -115,7 +121,7 @@ def parse_tables():
     rest = src
     for a, b in reversed(consumed):
         rest = rest[:a] + rest[b:]
-    if re.sub(r'[\s;]', '', rest):
+    if re.sub(r'[\s;]', '', rest) and not lenient:
         raise TErr(f'structs.ipp: text outside the table macros: {rest.strip()[:120]!r}')
     return params, aliases, enums
 
@@ -341,7 +347,7 @@ def lkind(k):
         return f'.int ({k[1]}) ({k[2]})'
     if k[0] == 'dur':
         return f'.dur {k[1]}'
-    return f'.{k[0]} {lstr(k[1])}'
+    return f'.{"other" if k[0] == "opaque" else k[0]} {lstr(k[1])}'
 
 
 def llist(items, indent='  '):
@@ -417,7 +423,7 @@ def emit_lean(d):
             if n not in ev:
                 raise TErr(f'ENUM_TABLE({t}): enumerator {n} does not exist (would not compile)')
         en_items.append('(%s, [%s])' % (lstr(t), ', '.join('(%s, %d)' % (lstr(n), ev[n]) for n in ents)))
-    o.append('def env : Env := { structs := ' + llist(st_items) + ',\n  enums := ' + llist(en_items) + ' }')
+    o.append('def env : Env where\n  structs := ' + llist(st_items) + '\n  enums := ' + llist(en_items))
     o.append('')
     o.append('end Alpaqa.Gen.C18')
     return '\n'.join(o) + '\n'
@@ -455,17 +461,27 @@ def emit_cxx(d):
     return '\n'.join(o)
 
 
-def gather():
-    macro_hashes = check_macros()
-    params, aliases, enumtabs = parse_tables()
+def gather(lenient=False):
+    """lenient=True: only what the harness walkers and the monitor need (struct / enum
+    definitions of the types that have a table); table entries that are not understood are
+    skipped instead of raising.  Never used for the Lean tables."""
+    macro_hashes = {} if lenient else check_macros()
+    params, aliases, enumtabs = parse_tables(lenient)
     tstructs = [t for t, _ in params]
     tenums = [t for t, _ in enumtabs]
     if len(set(tstructs)) != len(tstructs) or len(set(tenums)) != len(tenums):
         raise TErr('structs.ipp: a type has two tables (would not compile)')
     structs = [parse_struct(t, set(tstructs), set(tenums)) for t in tstructs]
     enums = [parse_enum(t) for t in tenums]
-    inst, bools = parse_params_cpp()
-    trim, stop, units = parse_duration_hpp()
+    if lenient:
+        try:
+            inst, bools = parse_params_cpp()
+        except (cp.TranslationError, ValueError):
+            inst, bools = list(tstructs) + list(tenums), []
+        trim, stop, units = '', '', []
+    else:
+        inst, bools = parse_params_cpp()
+        trim, stop, units = parse_duration_hpp()
     return {'params': params, 'aliases': aliases, 'enumtabs': enumtabs, 'structs': structs,
             'enums': enums, 'inst': inst, 'bools': bools, 'trim': trim, 'stop': stop, 'units': units,
             'macro_hashes': macro_hashes}
@@ -479,6 +495,14 @@ def write_if_changed(path, text):
         with open(tmp, 'w', encoding='utf8') as f:
             f.write(text)
         os.replace(tmp, path)
+
+
+def harness_only():
+    """Definitions + C++ walkers even when the tables cannot be translated (the Lean side is then
+    left untouched and the strict run reports the broken tie)."""
+    d = gather(lenient=True)
+    write_if_changed(os.path.join(cache_dir(), 'c18_tables.hpp'), emit_cxx(d))
+    return d
 
 
 def main(out_path=None):
